@@ -94,7 +94,10 @@ func genHist(r *Rng, tier string, idx int, args map[string]string) []string {
 	for i := 0; i < n; i++ {
 		x := r.Intn(100)
 		if big {
-			x = x % 50 // mostly adds, some save/load, no clear
+			x = x % 72 // mostly adds, some save/load and the views over many distinct queries; no clear
+			if x >= 54 && x < 56 {
+				x = 64
+			}
 		}
 		switch {
 		case x < 40:
